@@ -6,7 +6,7 @@
 
    Both are regenerated from the Python source on every run (Gen/FnCallCmdGuards.v: the guard's test as
    fn_purity_rejected -- that it is the first statement and guards a RuntimeError is checked on the syntax tree by
-   tools/fnspecs/call_rows.py --, the assignment as fn_cmd_sample_sex).  Here: the purities the command lets through are
+   tools/fnspecs/z_call_rows.py --, the assignment as fn_cmd_sample_sex).  Here: the purities the command lets through are
    exactly the premise `valid_purity` of C01_cn_exact / C01_do_call_clonal (none, or 0 < p <= 1) plus the value 0, which
    Python's truthiness reads as "no purity" (use_purity answers None for it: the pure path); and the sample's sex is
    looked up exactly when Model/Call.v use_purity answers, i.e. on the purity-adjusted path that reads it. *)
